@@ -6,13 +6,13 @@ from .. import replay as rp
 from .setops import premise_group, bits_for, fnr, decode_ab, prog_ab, built
 
 from ..validate import validation_group
-BOUNDS = {'quick': {'alternatives_per_operand': '1..2'}, 'thorough': {'alternatives_per_operand': '1..4'}}
+BOUNDS = {'quick': {'alternatives_per_operand': '1..2'}, 'thorough': {'alternatives_per_operand': '1..6'}}
 OUTSIDE = ['more alternatives than the bound', 'parser / Display', '"true => some version lies in both" is not claimed (adjacent prereleases leave empty gaps); the property states the other direction']
 ASSUMPTIONS = ['rank mode is sound given C04', 'std models are transcriptions of the pinned nightly rust-src', 'every BoundSet is built by BoundSet::new']
 
 
 def groups(tier):
-    K = 2 if tier == 'quick' else 4
+    K = 2 if tier == 'quick' else 6
     return [{'name': 'rank-%dx%d' % (ka, kb), 'fn': rank_group, 'rank_fallback': True, 'args': {'ka': ka, 'kb': kb}} for ka in range(1, K + 1) for kb in range(1, K + 1)] + [validation_group(('allows_any',), tier)] + [premise_group(tier)]
 
 
